@@ -2,7 +2,8 @@
    Pinned statements only; proofs live in Fold/FoldProofs.v.  Models: Fold/FoldModel.v (number.rs
    string_arithmetic / negate / literal widening, math_expr.rs try_constexpr_eval) and Num/NumImpl.v (the
    run-time operators).  [FixedF] / [Fixed] = the code with fixes/fold-negate.diff and
-   fixes/num-checked-arithmetic.diff applied.
+   fixes/num-overflow-panics-in-every-build.diff, fixes/num-byte-zero-divisor.diff and
+   fixes/num-rem-min-by-minus-one.diff applied.
 
    Full statement (property C06): a literal expression is evaluated by the compiler to the identical value
    and kind its run-time evaluation yields, and is rejected exactly when run-time evaluation would fail.
@@ -62,7 +63,7 @@ Example C06_widening :
 Proof. vm_compute. reflexivity. Qed.
 Example C06_rejects_overflow :
   fold FixedF (EBin (Arith Add) (ENum (NInteger (Src 2147483647))) (ENum (NInteger (Src 1)))) = FErr
-  /\ eval_rt Fixed (EBin (Arith Add) (ENum (NInteger (Src 2147483647))) (ENum (NInteger (Src 1)))) = Err.
+  /\ eval_rt Fixed (EBin (Arith Add) (ENum (NInteger (Src 2147483647))) (ENum (NInteger (Src 1)))) = Panic.
 Proof. split; vm_compute; reflexivity. Qed.
 Example C06_negation_fixed :
   fold FixedF e_neg_big = FVal (CNum (NBigInt (Dec (-5)))) /\
